@@ -250,9 +250,15 @@ def make_objective(scn, exc_for):
     class SubPruned(optuna.TrialPruned):
         pass
 
+    gate = scn.get("gate")
+
     def objective(trial):
         s = script[trial.number]
         o, var = s["o"], s["var"]
+        if s.get("slow") and gate is not None:
+            # a sibling still in flight when another trial fails: it stays in its objective until the harness has looked at
+            # the study after optimize() returned/raised (or, on code that waits for it, until this timeout)
+            gate.wait(timeout=1.2)
         if var % 3 != 2:
             trial.suggest_float("x", 0.0, 1.0)
         if var % 4 == 1:
@@ -290,7 +296,10 @@ def run_opt_scenario(scn, workdir):
         s["_via"] = ["raise", "raise", "pruner", "sampler"][s["var"] % 4] if s["o"]["kind"] in ("E1", "E2") else "raise"
         if s["_via"] == "pruner" and cfg["nobj"] > 1:      # should_prune is not available on multi-objective studies
             s["_via"] = "raise"
-    run = {"cfg": cfg, "script": script, "impl": impl}
+    import threading
+
+    gate = threading.Event()
+    run = {"cfg": cfg, "script": script, "impl": impl, "gate": gate}
     sampler, pruner, exc_for, armed = make_sampler_pruner(impl, script, cfg["nobj"])
     storage = make_storage(impl.get("storage", "inmemory"), workdir)
     study = optuna.create_study(storage=storage, directions=["minimize", "maximize", "minimize"][: cfg["nobj"]],
@@ -329,6 +338,7 @@ def run_opt_scenario(scn, workdir):
         trials = [project_trial(t) for t in study.get_trials(deepcopy=True)]
     except Exception as e:  # noqa: a study that cannot be read back any more is an observation, not a harness problem
         trials = [{"state": "UNREADABLE", "values": [type(e).__name__]}]
+    gate.set()
     final = {"a": "final", "trials": trials, "cbA": cb_a, "cbB": cb_b, "raised": project_exc(escaped, impl)}
     if escaped is not None and final["raised"].startswith("X:"):
         final["raw"] = repr(escaped)[:200]
@@ -673,6 +683,16 @@ def run(ctx):
         cfg = {"nobj": 1, "catch": 0, "n": 1, "jobs": 1, "pre": []}
         plan.append(("opt", {"cfg": cfg, "script": pad_script([dict(entry(calm(rng, 1), rng, saA="raise"), var=var)], cfg, rng),
                              "impl": rand_impl(rng)}))
+    # n_jobs=2: one trial fails with an exception that propagates (or Ctrl-C) while its sibling is still inside the objective:
+    # when optimize() raises, the sibling must already be finished (no trial left RUNNING, its callback run)
+    for kind in ("E2", "KI", "E2", "E1"):
+        for slow_first in (0, 1):
+            bad = {"k": "raise", "kind": kind, "stop": 0, "rep": "none"}
+            cfg = {"nobj": 1, "catch": 1 if kind == "E1" else 0, "n": 2, "jobs": 2, "pre": []}
+            sc = [entry(bad, rng), dict(entry(calm(rng, 1), rng), slow=1)]
+            if slow_first:
+                sc.reverse()
+            plan.append(("opt", {"cfg": cfg, "script": pad_script(sc, cfg, rng), "impl": rand_impl(rng)}))
     plan += [("opt", s) for s in scenarios_from_tlc(ctx, "StudyLoopMC_sim1", 150 if q else 1500, 40, rng)]
     plan += [("opt", s) for s in scenarios_from_tlc(ctx, "StudyLoopMC_sim2", 40 if q else 400, 60, rng)]
     plan += [("opt", s) for s in random_scenarios(rng, 700 if q else 8000)]
